@@ -342,7 +342,14 @@ fn st() -> &'static mut State {
 extern "C" {
     fn mprotect(addr: *mut u8, len: usize, prot: i32) -> i32;
     fn write(fd: i32, buf: *const u8, n: usize) -> isize;
+    fn _exit(code: i32) -> !;
 }
+
+/// Exit code of a run whose library code kept re-requesting memory after an
+/// injected failure (an unbounded retry loop): detected at the seam, reported
+/// by the parent as a hang without waiting for the watchdog.
+pub const EXIT_RETRY_STORM: i32 = 97;
+const RETRY_STORM_LIMIT: u64 = 200_000;
 const PROT_NONE: i32 = 0;
 const PROT_RW: i32 = 3;
 const PAGE: usize = 4096;
@@ -449,13 +456,22 @@ impl State {
     unsafe fn do_alloc(&mut self, layout: Layout) -> *mut u8 {
         let size = layout.size();
         let align = layout.align();
-        self.alloc_index += 1;
+        self.alloc_index = self.alloc_index.saturating_add(1);
         let idx = self.alloc_index;
         if self.cfg.fail_at != 0 && (idx == self.cfg.fail_at || (self.cfg.fail_persist && idx > self.cfg.fail_at)) {
             self.counters.failed_allocs += 1;
             self.event(EventKind::FailedAlloc, 0, size, align, false);
             let fd = OOM_FD.load(Ordering::Relaxed);
-            if fd >= 0 {
+            if self.counters.failed_allocs > RETRY_STORM_LIMIT {
+                if fd >= 0 {
+                    let msg = b"F retry-storm\n";
+                    write(fd, msg.as_ptr(), msg.len());
+                }
+                _exit(EXIT_RETRY_STORM);
+            }
+            // once per run: a library that retries in a loop must not be able
+            // to keep the result pipe busy (the watchdog listens for silence)
+            if fd >= 0 && self.counters.failed_allocs == 1 {
                 let msg = b"F oom-injected\n";
                 write(fd, msg.as_ptr(), msg.len());
             }
